@@ -1,7 +1,7 @@
 (* Parse/TypeSpan.v -- positions of type nodes (C05 / C06 on the type grammar): for every sentence of the grammar Tr whose tokens are laid
    out like lexer output, the tree starts at its first token, ends no later than the next token starts, every child lies strictly
    inside its parent and siblings are ordered without overlap. *)
-From Verif Require Import Base.Bytes Tree.Tree Tree.PosLang Tree.PosProofs Parse.ExprModel Parse.Span Parse.TypeModel Parse.TypeProofs Gen.Schema Gen.PosSpec Gen.PosImpl.
+From Verif Require Import Base.Bytes Tree.Tree Parse.ExprModel Parse.TypeModel Parse.TypeProofs.
 From Coq Require Import Lia.
 Local Open Scope Z_scope.
 
@@ -256,70 +256,3 @@ Proof.
   - intros E. rewrite E in H5. apply Z.eqb_eq in H5. exact H5.
 Qed.
 
-(* ---------- the generated Pos() / End() on type trees: the programs regenerated from ast/pos.go compute [ty_pos] / [ty_end] ---------- *)
-Notation PE := (pe gbody geval_body schema pos_impl).
-Ltac tables :=
-  repeat match goal with
-         | |- context [assoc ?k schema] => let v := eval vm_compute in (assoc k schema) in change (assoc k schema) with v
-         | |- context [assoc ?k pos_impl] => let v := eval vm_compute in (assoc k pos_impl) in change (assoc k pos_impl) with v
-         end.
-Lemma last_end_last : forall ids d0 d, ids <> [] -> last_end d0 ids = id_end (last ids d).
-Proof.
-  induction ids as [|i r IH]; intros d0 d NE; [congruence|]. cbn [last_end]. destruct r as [|j r]; [reflexivity|].
-  change (last (i :: j :: r) d) with (last (j :: r) d). apply IH. discriminate.
-Qed.
-Definition valid_end (t : ty) : Prop :=
-  match t with TSimple p _ => 0 <= p | TArray _ g _ | TStruct _ g _ => 0 <= g | TNamed ids => ids <> [] end.
-Lemma invalid_nonneg p : 0 <= p -> invalid p = false.
-Proof. unfold invalid. intros H. apply Z.ltb_ge. exact H. Qed.
-Theorem pe_ty_tree : forall t, valid_end t -> PE (ty_tree t) = Some (ty_pos t, ty_end t).
-Proof.
-  intros t H. destruct t as [p n|ids|a g it|s g fs]; cbn [ty_tree pe]; tables; cbn [mk_env fval_of].
-  - cbn. cbn in H. rewrite (invalid_nonneg _ H). reflexivity.
-  - destruct ids as [|i r]; [cbn in H; congruence|]. rewrite pe_idents.
-    cbn [geval_body geval_p geval_n assoc String.eqb Ascii.eqb Bool.eqb geval_i nth_z map].
-    change (map (fun i0 => (id_pos i0, id_end i0)) (i :: r)) with ((id_pos i, id_end i) :: map (fun i0 => (id_pos i0, id_end i0)) r).
-    cbn [Z.ltb Z.compare Z.to_nat nth_error].
-    change ((id_pos i, id_end i) :: map (fun i0 => (id_pos i0, id_end i0)) r) with (map (fun i0 => (id_pos i0, id_end i0)) (i :: r)).
-    rewrite (last_map_pair (i :: r) {| id_pos := 0; id_end := 0; id_name := [] |}) by discriminate.
-    cbn [ty_pos ty_end]. unfold last_ident_end. rewrite (last_end_last (i :: r) 0 {| id_pos := 0; id_end := 0; id_name := [] |}) by discriminate. reflexivity.
-  - match goal with |- context [("Item"%string, ?v)] => generalize v end. intros v. cbn. cbn in H. rewrite (invalid_nonneg _ H). reflexivity.
-  - match goal with |- context [("Fields"%string, ?v)] => generalize v end. intros v. cbn. cbn in H. rewrite (invalid_nonneg _ H). reflexivity.
-Qed.
-
-(* the rest is a suffix of the input *)
-Lemma TrPath_suffix ids ts K : TrPath ids ts K -> exists pre, ts = (pre ++ K)%list.
-Proof.
-  induction 1 as [K|d i ts K ids _ _ _ [pre ->]]; [exists []; reflexivity|]. exists (d :: i :: pre). reflexivity.
-Qed.
-
-Lemma Tr_suffix :
-  (forall t ts K, Tr t ts K -> exists pre, ts = (pre ++ K)%list) /\ (forall f ts K, TrField f ts K -> exists pre, ts = (pre ++ K)%list) /\
-  (forall fs ts K, TrMore fs ts K -> exists pre, ts = (pre ++ K)%list).
-Proof.
-  apply Tr_mutind.
-  - intros t K nm _ _. exists [t]. reflexivity.
-  - intros t ts K ids _ _ HP _. destruct (TrPath_suffix _ _ _ HP) as [pre ->]. exists (t :: pre). reflexivity.
-  - intros a lt ts g K it _ _ _ [pre ->] _. exists (a :: lt :: pre ++ [g])%list. cbn [app]. rewrite <- app_assoc. reflexivity.
-  - intros s e K _ _. exists [s; e]. reflexivity.
-  - intros s lt g K _ _ _. exists [s; lt; g]. reflexivity.
-  - intros s lt ts ts1 g K f fs _ _ _ [p1 ->] _ [p2 ->] _. exists (s :: lt :: p1 ++ p2 ++ [g])%list. cbn [app]. rewrite <- !app_assoc. reflexivity.
-  - intros n ts K t _ _ _ [pre ->]. exists (n :: pre). reflexivity.
-  - intros ts K t _ [pre ->] _. exists pre. reflexivity.
-  - intros K. exists []. reflexivity.
-  - intros c ts ts1 K f fs _ _ [p1 ->] _ [p2 ->]. exists (c :: p1 ++ p2)%list. cbn [app]. rewrite <- app_assoc. reflexivity.
-Qed.
-
-(* the trees of the grammar over tokens at non-negative offsets have valid positions *)
-Lemma Tr_valid_end t ts K : Tr t ts K -> Forall (fun x => 0 <= ppos x) ts -> valid_end t.
-Proof.
-  intros H F. destruct H as [t K nm|t ts K ids|a lt ts g K it A B HS G|s e K|s lt g K|s lt ts ts1 g K f fs A B HF HM G]; cbn [valid_end]; try discriminate.
-  - inversion F; auto.
-  - destruct (proj1 Tr_suffix _ _ _ HS) as [pre ->]. inversion F as [|? ? _ F1]; subst. inversion F1 as [|? ? _ F2]; subst.
-    apply Forall_app in F2 as [_ F3]. inversion F3; auto.
-  - inversion F as [|? ? _ F1]; subst. inversion F1 as [|? ? E _]; subst. lia.
-  - inversion F as [|? ? _ F1]; subst. inversion F1 as [|? ? _ F2]; subst. inversion F2; auto.
-  - destruct (proj1 (proj2 Tr_suffix) _ _ _ HF) as [p1 ->]. destruct (proj2 (proj2 Tr_suffix) _ _ _ HM) as [p2 ->].
-    inversion F as [|? ? _ F1]; subst. inversion F1 as [|? ? _ F2]; subst.
-    apply Forall_app in F2 as [_ F3]. apply Forall_app in F3 as [_ F4]. inversion F4; auto.
-Qed.
